@@ -91,6 +91,9 @@ CHAIN_ASSUME = ["signatures are ideal (a signature verifies iff made by the veri
                 "Tendermint reports votes only for validators it holds; hostile consensus input (unknown validators, evidence against tombstoned ones) halts BeginBlock by design of the code and is modelled as a halt"]
 CHAIN_TRUSTED = ["go-amino, tendermint/iavl, tm-db (state is decoded with the repo's own codec by the harness)"]
 
+CHAIN_T1_DOWNTIME = {"family": "chain", "model": "chain", "profile": "downtime", "quick_n": 16000, "quick_shards": 4, "thorough_n": 150000,
+                     "corpus": "none", "reset_token": "init", "group_token": "begin"}
+
 def _chain(pid, req, t3=None):
     PROPS[pid] = {"lean_modules": ["Posmint.Props." + pid], "namespaces": ["Posmint.Props." + pid],
                   "required_theorems": ["Posmint.Props.%s.%s" % (pid, t) for t in req],
@@ -263,3 +266,7 @@ MANIFEST_TEXT = {
         "technique": "Lean 4 proof over executable model + differential correspondence",
     },
 }
+
+# C07/C08/C09: a second generator profile with long chains over sliding windows of 256..511 slots
+for _p in ("C07", "C08", "C09"):
+    PROPS[_p]["t1"] = CHAIN_T1 + [CHAIN_T1_DOWNTIME]
